@@ -136,6 +136,8 @@ import (
 //IMPORTS
 )
 
+var _ = fmt.Sprint
+
 type In struct {
 	Idx    int    ` + "`json:\"idx\"`" + `
 	Tape   []bool ` + "`json:\"tape\"`" + `
@@ -155,7 +157,7 @@ func run(f func(*rt.Rec), in In) (log [][]any, pn string) {
 	r := rt.NewRec(in.Tape, in.Budget)
 	defer func() {
 		if p := recover(); p != nil {
-			pn = fmt.Sprint(p)
+			pn = rt.PanicStr(p)
 		}
 		log = r.Log
 	}()
